@@ -113,6 +113,7 @@ class Features:
     enum_first_zero_bias: bool = True
     enum_first_zero: bool = False  # first member is always 0 (keeps recorded finding D4b out of a check)
     signed_nonstd: bool = True  # signed widths other than 8/16/32/64
+    shared_nested_names: bool = True  # sometimes give nested definitions of different parents ONE short name (legal: names are per scope)
     prune_unused_imports: bool = False  # drop imports no type uses (recorded finding D10: unused Go import)
 
 
@@ -455,7 +456,71 @@ def units(draw: Any, feat: Optional[Features] = None) -> Unit:
     _clamp_sizes(b.unit)
     if feat.prune_unused_imports:
         prune_unused_imports(b.unit)
+    if feat.shared_nested_names and feat.nested and feat.enums and draw(st.integers(0, 2)) == 0:
+        share_nested_names(draw, b.unit)
     return b.unit
+
+
+SHARED_NAMES = ["Kind", "Mode", "Sample", "Inner", "State"]
+
+
+def share_nested_names(draw: Any, unit: Unit) -> int:
+    """Give sibling messages of one file like-named nested definitions used the same way (a common
+    idiom: `Imu.Sample[3]`, `Baro.Sample[3]`): nested definitions of different, non-nested parents are
+    renamed to (or created under) ONE shared short name, and each parent gets an array field of it with
+    the same capacity.  No scope chain sees two of them, so the reference texts derived by
+    scoping.retext are also what the innermost-scope-outward rule resolves; flattened target-language
+    names stay distinct because the enclosing message names differ."""
+    from . import scoping
+    from .model import iter_messages
+
+    changed = 0
+    pool = list(SHARED_NAMES)
+    for f in unit.files:
+        tops = [it for it in f.items if isinstance(it, Message)]
+        if len(tops) < 2 or not pool:
+            continue
+        parents = list(draw(st.permutations(tops)))[: draw(st.integers(2, 3))]
+        kind = draw(st.sampled_from(["enum", "message"]))
+        new = pool.pop(0)
+        cap = draw(st.integers(1, 4))
+        ext = False
+        snapshot = [(p, list(p.items)) for p in parents]
+        renames: List[Tuple[Any, str]] = []
+        widths = draw(st.permutations([2, 3, 5, 7, 9, 12]))
+        for k, p in enumerate(parents):
+            existing = [it for it in p.nested() if isinstance(it, Enum if kind == "enum" else Message)]
+            if existing and draw(st.booleans()):
+                dd = existing[0]
+                renames.append((dd, dd.name))
+                dd.name = new
+            else:
+                if kind == "enum":
+                    dd = Enum(new, widths[k], [("EV_S%s%d_ZERO" % (new.upper(), len(unit.files) * 10 + k + changed), 0), ("EV_S%s%d_TOP" % (new.upper(), len(unit.files) * 10 + k + changed), (1 << widths[k]) - 1)])
+                    dd.parent_file = f  # type: ignore
+                    dd.is_nested = True  # type: ignore
+                else:
+                    dd = Message(new, False, [Field("alt", TBase("uint", widths[k]), 1), Field("lat", TBase("int", widths[(k + 1) % len(widths)]), 2)])
+                p.items.insert(0, dd)
+            used_names = {it.name for it in p.items}
+            fname = next(w for w in reversed(FIELD_WORDS) if w not in used_names)
+            nums = [fl.number for fl in p.fields()]
+            number = max(nums + [0]) + 1
+            if number <= 255:
+                p.items.append(Field(fname, TArray(TRef(new, dd), cap, ext), number))
+        set_parents(unit)
+        ok = scoping.retext(unit) and scoping.names_unique(unit) and scoping.unit_type_names_shadow_free(unit) and all(ref.nbits(m) <= 65535 for m in iter_messages(f))
+        if not ok:
+            for p, items in snapshot:
+                p.items = items
+            for dd, nm in renames:
+                dd.name = nm
+            set_parents(unit)
+            scoping.retext(unit)
+            pool.insert(0, new)
+            continue
+        changed += len(parents)
+    return changed
 
 
 def prune_unused_imports(unit: Unit) -> int:
@@ -680,6 +745,9 @@ def unit_labels(unit: Unit) -> List[str]:
             labs.update(message_labels(m))
             if enclosing_messages(m):
                 labs.add("nested_message")
+        nested_names = [it.name for m in iter_messages(f) for it in m.nested()]
+        if len(nested_names) != len(set(nested_names)):
+            labs.add("shared_nested_name")
     return sorted(labs)
 
 
